@@ -118,9 +118,27 @@ def edit_circuit(c, edit):
         c.relabel({outs[0]: outs[0] + "_renamed"})
 
 
+def commented(ast, lines):
+    """The same statements with comments a reader has to skip: '#' starts a comment that runs to the end of the line
+    (every .bench file shipped with the library opens with such lines).  The comments here LOOK like statements -
+    a commented-out declaration, a commented-out second definition of a net with another operand, a remark behind a
+    statement - so a reader that does not strip them produces another circuit."""
+    ins = list(ast["inputs"])
+    out = []
+    for k, l in enumerate(lines):
+        out.append(l + ("  # OUTPUT(%s)" % ins[0] if ins and k % 2 == 0 else " #INPUT(zz_c%d)" % k))
+    extra = ["# INPUT(zz_in)", "#OUTPUT(zz_in)"]
+    for net, t, ops in ast["gates"][:2]:
+        extra.append(f"# {net} = NAND({', '.join([net + '_zz'] + list(ops))})")
+        extra.append(f"#{net}_old = DFF({ops[0] if ops else net})")
+    return extra[:2] + out[: len(out) // 2] + extra[2:] + out[len(out) // 2:]
+
+
 def check_read(acc, ast, lines, case, site="reader"):
     import circuitgraph as cg
 
+    if case.get("comments"):
+        lines = commented(ast, lines)
     text = "# generated\n" + "\n".join(lines) + "\n"
     acc.transitions += 1
     edit = case.get("edit")
@@ -229,6 +247,10 @@ def run_reader(job, acc):
                 if od != tuple(range(len(base))):
                     acc.nontrivial += 1
                 check_read(acc, ast, [base[i] for i in od], {"kind": "read", "ast": ast, "spell": sp, "order": list(od), "ws": 0})
+            if idx % 4 == 0:
+                acc.states += 1
+                acc.nontrivial += 1
+                check_read(acc, ast, list(base), {"kind": "read", "ast": ast, "spell": sp, "order": list(range(len(base))), "ws": 0, "comments": True})
         acc.sample({"ast": ast})
         if acc.out_of_time():
             break
@@ -245,6 +267,8 @@ def run_reader_fixed(job, acc):
                     acc.states += 1
                     acc.nontrivial += 1
                     check_read(acc, ast, [base[i] for i in od], {"kind": "read", "ast": ast, "spell": sp, "order": list(od), "ws": ws})
+                acc.states += 1
+                check_read(acc, ast, list(base), {"kind": "read", "ast": ast, "spell": sp, "order": list(range(len(base))), "ws": ws, "comments": True})
                 # blank lines between statements
                 acc.states += 1
                 check_read(acc, ast, [x for l in base for x in (l, "")], {"kind": "read", "ast": ast, "spell": sp, "order": "blank", "ws": ws})
